@@ -172,7 +172,20 @@ def rejection_sampling(ctx, world, ev):
                "an iteration is accepted on the sole condition candidate < stop - start" if not extra else
                "accepted iterations also depend on %s: some draws are discarded for another reason, so values are not equally likely" % extra, site)
         # R3/R6: candidate = be2int(bytes([mask & D[0]] + D[1:])) with D a fresh draw of num_bytes
-        ok3, why3, mask, nb = False, "", None, None
+        ok3, why3, mask, nb, mask_kind = False, "", None, None, "byte"
+
+        def draw_of(D):
+            dr = [x for x in subterms(D) if is_app(x, "call") and x.args[0] == ent]
+            if len(dr) == 1 and D in (mk_app("list", (dr[0],)), mk_app("bytearray", (dr[0],)), mk_app("bytes", (dr[0],)), dr[0]):
+                return dr[0]
+            return None
+        if is_app(cand, "BitAnd", "Mod") and len(cand.args) == 2:
+            # the whole integer is masked: be2int(d) & (2^bits - 1)  /  be2int(d) % 2^bits  - the same value as
+            # masking the most significant byte when d has ceil(bits/8) bytes (R4 checks both)
+            for a, b in ((cand.args[0], cand.args[1]), (cand.args[1], cand.args[0])):
+                if is_app(a, "be2int") and draw_of(a.args[0]) is not None and (cand.f == "BitAnd" or a is cand.args[0]):
+                    mask, nb, ok3 = b, draw_of(a.args[0]).args[1], True
+                    mask_kind = "int" if cand.f == "BitAnd" else "mod"
         if is_app(cand, "be2int"):
             lst = cand.args[0].args[0] if is_app(cand.args[0], "bytes") else cand.args[0]
             # normal form of "[mask & D[0]] + D[1:]" and of "D[0] = mask & D[0]": setitem(D, 0, mask & D[0])
@@ -190,7 +203,8 @@ def rejection_sampling(ctx, world, ev):
         if not ok3:
             why3 = show(cand, maxdepth=6)
         ctx.ob("R3", "candidate form", ok3,
-               "candidate = big-endian integer of [mask & d[0]] + d[1:] for one draw d = entropy_f(num_bytes): mask on the most significant byte" if ok3 else
+               ("candidate = big-endian integer of [mask & d[0]] + d[1:] for one draw d = entropy_f(num_bytes): mask on the most significant byte"
+                if mask_kind == "byte" else "candidate = big-endian integer of one draw d = entropy_f(num_bytes), reduced to its low bits (%s)" % mask_kind) if ok3 else
                "candidate is not the big-endian integer of a masked fresh draw: %s" % why3, site)
         if not ok3:
             continue
@@ -208,7 +222,7 @@ def rejection_sampling(ctx, world, ev):
         sym_n = nb in nbytes_forms
         nz = (leftover, True) in conds
         z = (leftover, False) in conds or (mk_app("Eq", (leftover, Const(0))), True) in conds
-        sym_mask = (nz and mask == mk_app("Sub", (mk_app("LShift", (Const(1), leftover)), Const(1)))) or (z and mask == Const(0xff))
+        sym_mask = mask_kind == "byte" and (nz and mask == mk_app("Sub", (mk_app("LShift", (Const(1), leftover)), Const(1)))) or (mask_kind == "byte" and z and mask == Const(0xff))
         blconds = [(t, p) for (t, p) in conds if any(x == blt for x in subterms(t))]
         bad_n, bad_m, unfold = [], [], []
         for b in range(0, BMAX + 1):
@@ -233,7 +247,9 @@ def rejection_sampling(ctx, world, ev):
             bits = b or 1
             if nv != (bits + 7) // 8:
                 bad_n.append((b, nv))
-            if mv != ((1 << (bits % 8)) - 1 if bits % 8 else 0xff):
+            want_m = ((1 << (bits % 8)) - 1 if bits % 8 else 0xff) if mask_kind == "byte" else \
+                ((1 << bits) - 1 if mask_kind == "int" else (1 << bits))
+            if mv != want_m:
                 bad_m.append((b, mv))
         okn = not bad_n and not unfold
         ctx.ob("R4", "num_bytes", okn, ("num_bytes = ceil(bit_length(stop-start)/8)" if sym_n else
@@ -243,7 +259,8 @@ def rejection_sampling(ctx, world, ev):
         case = "bits%8 != 0" if nz else "bits%8 == 0" if z else "computed"
         ctx.ob("R4", "mask (%s)" % case, okm,
                ("mask = 2^(bits mod 8) - 1 when bits mod 8 != 0, else 0xff" if sym_mask else
-                "mask %s folds to 2^(bits mod 8) - 1 / 0xff for every bit length 0..%d on this path" % (show(mask, maxdepth=4), BMAX)) if okm else
+                "mask %s folds to %s for every bit length 0..%d on this path"
+                % (show(mask, maxdepth=4), {"byte": "2^(bits mod 8) - 1 / 0xff", "int": "2^bits - 1", "mod": "2^bits"}[mask_kind], BMAX)) if okm else
                "top-byte mask is %s: wrong for bit lengths %s" % (show(mask, maxdepth=5), (bad_m or unfold)[:4]), site)
         ctx.ob("R5", "case split over bit lengths 0..%d (%s)" % (BMAX, case), okn and okm,
                "for every bit length the candidate ranges over exactly [0, 2^bits): mask and length fold to 2^(bits%%8)-1 / ceil(bits/8)" if okn and okm else
